@@ -147,6 +147,20 @@ func redactNamespace(cmd *orderedmap.OrderedMap[string, any]) {
 	}
 }
 
+// hashNamespaceDocument pseudonymises a namespace that is given as a document (e.g. $merge.into: {db: ..., coll: ...}):
+// every string value is replaced by its pseudonym, keys and all other values are kept.
+func hashNamespaceDocument(ns *orderedmap.OrderedMap[string, any]) *orderedmap.OrderedMap[string, any] {
+	hashed := orderedmap.NewOrderedMap[string, any]()
+	for el := ns.Front(); el != nil; el = el.Next() {
+		if name, ok := el.Value.(string); ok {
+			hashed.Set(el.Key, HashName(name))
+		} else {
+			hashed.Set(el.Key, el.Value)
+		}
+	}
+	return hashed
+}
+
 func redactCommand(cmd *orderedmap.OrderedMap[string, any], shouldEagerRedact bool) {
 	if cmd == nil {
 		return
@@ -375,6 +389,8 @@ func redactPipelineStage(stage interface{}, redactFieldNames bool, keyPath []str
 						switch vTyped := v.(type) {
 						case string:
 							newMap.Set(redactedKey, HashName(vTyped))
+						case *orderedmap.OrderedMap[string, any]:
+							newMap.Set(redactedKey, hashNamespaceDocument(vTyped))
 						default:
 							newMap.Set(redactedKey, v)
 						}
@@ -465,6 +481,8 @@ func redactPipelineStage(stage interface{}, redactFieldNames bool, keyPath []str
 										switch subVTyped := subV.(type) {
 										case string:
 											newSubMap.Set(subK, HashName(subVTyped))
+										case *orderedmap.OrderedMap[string, any]:
+											newSubMap.Set(subK, hashNamespaceDocument(subVTyped))
 										default:
 											newSubMap.Set(subK, subV)
 										}
